@@ -82,7 +82,7 @@ Fixpoint check_bsteps (st : strategy) (s : bstate) (ks : list bkstep) (i : nat) 
 
 Definition b_init (cap : Z) : bstate :=
   {| b_files := []; b_clock := 0; b_writes := []; b_heap := []; b_nloc := 0; b_objs := [];
-     b_buffer := []; b_size := 0; b_cap := cap; b_stack := []; b_ctx := 0; b_bcs := [] |}.
+     b_buffer := []; b_size := 0; b_cap := cap; b_stack := []; b_ctx := 0; b_bcs := []; b_forced := 0 |}.
 
 Definition diag_bcase (st : strategy) (cap : Z) (ks : list bkstep) : option (nat * nat) :=
   check_bsteps st (b_init cap) ks 0.
